@@ -23,10 +23,150 @@ ARCH_CFG = {5: 'v5-pmsa', 6: 'v6-pmsa-sec', 7: 'v7-pmsa-r'}
 def plan(tier, seed):
     reps = 12 if tier == 'quick' else 900
     n = 12 if tier == 'quick' else 48
-    return [dict(seed=seed, shard=i, of=n, reps=reps) for i in range(n)]
+    specs = [dict(seed=seed, shard=i, of=n, reps=reps) for i in range(n)]
+    specs += [dict(kind='insn', seed=seed, shard=100 + i, n=2500 if tier == 'quick' else 120000) for i in range(4 if tier == 'quick' else 16)]
+    return specs
+
+
+# store / load instruction pairs of the same size and address: (name, size, signed load, kind, store word, load word,
+# offset field setter).  Registers: r0 base, r1 index, r2:r3 stored, r4:r5 loaded.
+def _imm12(w, imm):
+    return w | (imm & 0xFFF)
+
+
+def _imm8(w, imm):
+    return w | ((imm >> 4) << 8) | (imm & 0xF)
+
+
+def _t32_imm8x4(w, imm):
+    return w | ((imm >> 2) & 0xFF)
+
+
+def _none(w, imm):
+    return w
+
+
+PAIRS = [
+    ('STR/LDR imm A1', 4, False, 'arm', 0xE5802000, 0xE5904000, _imm12, 'imm'),
+    ('STRB/LDRB imm A1', 1, False, 'arm', 0xE5C02000, 0xE5D04000, _imm12, 'imm'),
+    ('STRB/LDRSB imm A1', 1, True, 'arm', 0xE5C02000, 0xE1D040D0, None, 'imm'),
+    ('STRH/LDRH imm A1', 2, False, 'arm', 0xE1C020B0, 0xE1D040B0, _imm8, 'imm'),
+    ('STRH/LDRSH imm A1', 2, True, 'arm', 0xE1C020B0, 0xE1D040F0, _imm8, 'imm'),
+    ('STRD/LDRD imm A1', 8, False, 'arm', 0xE1C020F0, 0xE1C040D0, _imm8, 'imm'),
+    ('STRD/LDRD reg A1', 8, False, 'arm', 0xE18020F1, 0xE18040D1, _none, 'reg'),
+    ('STR/LDR reg A1', 4, False, 'arm', 0xE7802001, 0xE7904001, _none, 'reg'),
+    ('STRH/LDRH reg A1', 2, False, 'arm', 0xE18020B1, 0xE19040B1, _none, 'reg'),
+    ('STRB/LDRB reg A1', 1, False, 'arm', 0xE7C02001, 0xE7D04001, _none, 'reg'),
+    ('STR/LDR T1', 4, False, 't16', 0x6002, 0x6804, _none, 'none'),
+    ('STRH/LDRH T1', 2, False, 't16', 0x8002, 0x8804, _none, 'none'),
+    ('STRB/LDRB T1', 1, False, 't16', 0x7002, 0x7804, _none, 'none'),
+    ('STR/LDR reg T1', 4, False, 't16', 0x5042, 0x5844, _none, 'reg'),
+    ('STRD/LDRD imm T1', 8, False, 't32', 0xE9C02300, 0xE9D04500, _t32_imm8x4, 'imm4'),
+    ('STR.W/LDR.W imm T3', 4, False, 't32', 0xF8C02000, 0xF8D04000, _imm12, 'imm'),
+    ('STRH.W/LDRSH.W imm', 2, True, 't32', 0xF8A02000, 0xF9B04000, _imm12, 'imm'),
+]
+
+
+def insn_roundtrip(spec):
+    """reference-free, at the instruction level: a store followed by a load of the same size at the same address returns
+    the stored value (sign-/zero-extended), the bytes in memory are the value in CPSR.E order, and no other byte changes"""
+    from vf import scen, machine as M, observe, lockstep
+    rng = rng_for(ID, 'insn', spec['seed'], spec['shard'])
+    ls = lockstep.LockStep(ID, rng)
+    res = ls.res
+    res['sets']['insn_cells'] = set()
+    ctxkeys = [('v7-pmsa-r', 'off'), ('v7-vmsa-virt', 'off'), ('v7-vmsa-sec', 'off'), ('v6-pmsa-sec', 'off')]
+    for i in range(spec['n']):
+        name, size, signed, kind, sw, lw, setter, offk = PAIRS[rng.randrange(len(PAIRS))]
+        ctxkey = ctxkeys[rng.randrange(len(ctxkeys))]
+        ctx = ls.ctx(ctxkey)
+        e = rng.randrange(2)
+        off = rng.randrange(8)
+        base_addr = rng.choice([0x100, 0x1000, 0x3F8, 0x7FE0, 0x11F00, 0x11000]) + off
+        if offk == 'imm':
+            imm = rng.choice([0, 0, 4, 8, 1, 3, 0xFC]) if setter is not None else 0
+            if setter is _imm8:
+                imm &= 0xFF
+        elif offk == 'imm4':
+            imm = rng.choice([0, 4, 8, 0x3FC])
+        else:
+            imm = 0
+        index = rng.choice([0, 4, 8, 3, 0x100]) if offk == 'reg' else 0
+        regs = [None] * 15
+        target = base_addr
+        regs[0] = (target - imm - index) & 0xFFFFFFFF
+        regs[1] = index
+        v_lo, v_hi = rng.getrandbits(32), rng.getrandbits(32)
+        if rng.random() < 0.3:
+            v_lo = rng.choice([0x80, 0x8000, 0x80000000, 0xFF, 0xFFFF, 0x7F, 0x11223344])
+        regs[2], regs[3] = v_lo, v_hi
+        swd = setter(sw, imm) if setter else sw
+        lwd = setter(lw, imm) if setter else lw
+        mode = rng.choice(['svc', 'sys', 'usr', 'irq'])
+        desc = scen.prepare(ctx, rng, kind, swd, mode=mode, itpos='out', regs=regs, e=e)
+        cpu = ctx.cpu
+        r = cpu.registers
+        r.sctlr.u = 1             # RAO on ARMv7; on ARMv6 the legacy (U = 0) rotation is covered at the function level
+        r.sctlr.a = 0
+        nxt = scen.CODE + (2 if kind == 't16' else 4)
+        M.put_code(cpu, nxt, lwd, kind)
+        pre = observe.snapshot(cpu)
+        cell = '%s|o%d|E%d|%s' % (name, off, e, ctxkey[0])
+        desc.update(pair=name, store=hex(swd), load=hex(lwd), address=hex(target), e=e)
+        k1, sig1 = scen.step(cpu)
+        mid = observe.snapshot(cpu)
+        if k1 != 'ok' or (mid['cpsr'] & 0x1F) != (pre['cpsr'] & 0x1F) or mid['PC'] != nxt:
+            ls.bump('insn_roundtrip_store_did_not_complete')      # alignment fault (LDRD/STRD unaligned), UNPREDICTABLE ...
+            continue
+        k2, sig2 = scen.step(cpu)
+        post = observe.snapshot(cpu)
+        res['evaluations'] += 1
+        if k2 != 'ok' or (post['cpsr'] & 0x1F) != (pre['cpsr'] & 0x1F):
+            ls.report('C13|insn-roundtrip|load-failed-after-store|%s' % name, dict(desc, outcome=str((k2, sig2))), desc)
+            continue
+        ls.bump('insn_roundtrips')
+        res['sets']['insn_cells'].add(cell)
+        if off % size or e:
+            res['nontrivial'].add(cell)
+        stored = (v_lo | (v_hi << 32)) & ((1 << (8 * size)) - 1)
+        exp_lo = stored & 0xFFFFFFFF
+        if signed and (stored >> (8 * size - 1)) & 1:
+            exp_lo = (stored | (0xFFFFFFFF << (8 * size))) & 0xFFFFFFFF
+        rn = lambda n: post['R%dusr' % n]                          # noqa: E731  (r0-r7 are not banked)
+        got_lo, got_hi = rn(4), rn(5)
+        why = None
+        if got_lo != exp_lo or (size == 8 and got_hi != v_hi):
+            why = 'loaded %#x%s, stored %#x%s' % (got_lo, ':%#x' % got_hi if size == 8 else '', exp_lo, ':%#x' % v_hi if size == 8 else '')
+        else:
+            # bytes in memory: the value in CPSR.E order (a doubleword is two words, lowest register at the lowest address)
+            want = bytearray()
+            if size == 8:
+                for wv in (v_lo, v_hi):
+                    want += wv.to_bytes(4, 'big' if e else 'little')
+            else:
+                want += stored.to_bytes(size, 'big' if e else 'little')
+            dev = 'mem0' if target < 0x8000 else 'mem1'
+            o = target if dev == 'mem0' else target - 0x10000
+            if post[dev][o:o + size] != bytes(want):
+                why = 'memory holds %s, expected %s' % (post[dev][o:o + size].hex(), bytes(want).hex())
+            else:
+                for dv in ('mem0', 'mem1', 'mem2'):
+                    a, b = pre[dv], post[dv]
+                    if dv == dev:
+                        a = a[:o] + a[o + size:]
+                        b = b[:o] + b[o + size:]
+                    if a != b:
+                        why = 'a byte outside the %d addressed bytes changed in %s' % (size, dv)
+        if why:
+            ls.report('C13|insn-roundtrip|%s|%s|%s' % (name, 'E1' if e else 'E0', 'aligned' if off % size == 0 else 'unaligned'),
+                      dict(desc, why=why), desc)
+    res['violations'] = list(ls.viol.values())
+    return res
 
 
 def run_shard(spec):
+    if spec.get('kind') == 'insn':
+        return insn_roundtrip(spec)
     from vf import scen, machine as M, observe, lockstep
     from vf.ref.model import RefCPU, RefAbort, RefUnpredictable, RefNotModelled
     from vf.ref import mem as RM      # noqa
@@ -152,6 +292,8 @@ def finish(agg, tier, seed):
         inc.append('only %d of 1536 cells covered' % len(agg['sets'].get('cells', ())))
     if agg['counters'].get('fetches_E1', 0) < 100:
         inc.append('too few big-endian fetches')
+    if agg['counters'].get('insn_roundtrips', 0) < 3000:
+        inc.append('too few instruction-level store/load round trips (%d)' % agg['counters'].get('insn_roundtrips', 0))
     return dict(inconclusive=inc, coverage=dict(
         exhaustive_subspaces=['all 1536 cells of the (size, offset, E, A, U, arch, privilege) matrix visited'],
         cells=len(agg['sets'].get('cells', ())),
